@@ -21,7 +21,8 @@ PROP = dict(
                        "Comdex.C09.v1_selloff_records", "Comdex.C09.v1_selloff_can_exceed_collateral_counterexample"],
     harness_tests=["TestC09"],
     monitors=["safe_never_seized", "slice_bounds", "seized_within_bound", "seized_within_two_sweeps", "seized_late_after_divergence",
-              "gen1_app3_offset_collision", "gen1_selloff_exceeds_collateral", "seize_exact_collateral", "one_auction", "store_order"],
+              "gen1_app3_offset_collision", "gen1_selloff_exceeds_collateral", "seize_exact_collateral", "one_auction", "store_order",
+              "auction_type", "gen1_msg_borrow_ignores_emode", "external_keeper_isolated", "batch_validated"],
     trusted_base=[KERNEL_TB, HARNESS_TB, DEC_TB,
                   "Model/Liquidation.lean is hand-written from x/liquidation (liquidate_vaults.go, msg_server.go, liquidate_borrow.go "
                   "offset bookkeeping, types/liquidations.go), x/liquidationsV2 (liquidate.go, offset.go, msg_server.go), "
